@@ -834,7 +834,7 @@ def make_data_dict_vcf(vcf_filename, popinfo_filename, subsample=None, filter=Tr
         # Read SNP data
         # Data lines in VCF file are tab-delimited
         # See https://samtools.github.io/hts-specs/VCFv4.2.pdf
-        cols = line.split("\t")
+        cols = line.rstrip('\r\n').split("\t")
         snp_id = '_'.join(cols[:2]) # CHROM_POS
         snp_dict = {}
         
@@ -996,11 +996,11 @@ def make_data_dict_vcf(vcf_filename, popinfo_filename, subsample=None, filter=Tr
                         coverage_dict[pop] = ()
 
                 # Skip if DP=0 or DP=.
-                try:
-                    if sample.split(':')[covindex] == '0,0' or sample.split(':')[dpindex] == '0':
-                        continue
-                except: 
-                    pass
+                fields = sample.split(':')
+                if covindex is not None and len(fields) > covindex and fields[covindex] == '0,0':
+                    continue
+                if dpindex is not None and len(fields) > dpindex and fields[dpindex] in ('0', '.'):
+                    continue
 
                 # Genotype in VCF format 0|1|1|0:...
                 gt = sample.split(':')[gtindex]
